@@ -6,6 +6,9 @@ Local Open Scope N_scope.
 
 Definition NULLE : N := 18446744073709551615.
 
+(* a long arithmetic list start, start+step, ... (n entries): case files name such lists instead of spelling them out *)
+Definition arith_list (n : nat) (start step : N) : list N := map (fun i => (start + step * N.of_nat i)%N) (seq 0 n).
+
 Inductive case :=
 | CCur (l : list N) (ts : list N) (init : N) (outs : list (N * N))            (* returned entry, GetCurEntryID *)
 | CFc (ls : list (list N)) (ts : list N) (init : N) (outs : list (N * (N * bool)))  (* returned, GetCurEntryID, ReachEnd *)
